@@ -675,3 +675,68 @@ Proof.
     destruct (errors_flat tbl ops ret) as [ops1 ret1]. simpl in *. rewrite Hf, app_nil_r.
     apply header_filter_wb. exact Hn.
 Qed.
+
+(* ---- escaping every brace of a text and expanding gives the text back ----------------------- *)
+Fixpoint esc1 (c : N) (w : bytes) : bytes :=
+  match w with
+  | [] => []
+  | x :: r => if x =? c then BSL :: c :: esc1 c r else x :: esc1 c r
+  end.
+
+Lemma esc1_head c : c <> BSL -> forall r y t, esc1 c r = y :: t -> y <> c.
+Proof.
+  intros Hc r y t H. destruct r as [|x r]; [discriminate|]. simpl in H.
+  destruct (x =? c) eqn:E.
+  - injection H as <- _. intro Hb. apply Hc. symmetry. exact Hb.
+  - injection H as <- _. apply N.eqb_neq. exact E.
+Qed.
+
+Lemma unesc1_esc1 c : c <> BSL -> forall w, unesc1 c (esc1 c w) = w.
+Proof.
+  intros Hc. induction w as [|x r IH]; [reflexivity|]. simpl.
+  destruct (x =? c) eqn:E.
+  - apply N.eqb_eq in E. subst x. rewrite unesc1_cons2. rewrite !N.eqb_refl. simpl. f_equal. exact IH.
+  - destruct (esc1 c r) as [|y t] eqn:Er.
+    + destruct r as [|x2 r2]; [reflexivity|]. simpl in Er. destruct (x2 =? c); discriminate.
+    + rewrite unesc1_cons2.
+      pose proof (esc1_head c Hc r y t Er) as Hy. apply N.eqb_neq in Hy. rewrite Hy, andb_false_r.
+      f_equal. rewrite <- Er in *. exact IH.
+Qed.
+
+Lemma esc_esc1 : forall w, esc w = esc1 LB (esc1 RB w).
+Proof.
+  induction w as [|x r IH]; [reflexivity|]. simpl.
+  destruct (x =? LB) eqn:E1.
+  - apply N.eqb_eq in E1. subst x. simpl. rewrite IH. reflexivity.
+  - destruct (x =? RB) eqn:E2.
+    + apply N.eqb_eq in E2. subst x. simpl. rewrite IH. reflexivity.
+    + simpl. rewrite E1, IH. reflexivity.
+Qed.
+
+Lemma unescape_esc w : unescape_braces (esc w) = w.
+Proof.
+  unfold unescape_braces. rewrite esc_esc1.
+  rewrite (unesc1_esc1 LB ltac:(discriminate)). apply (unesc1_esc1 RB ltac:(discriminate)).
+Qed.
+
+Lemma esc_all_open_escaped : forall w, all_open_escaped (esc w).
+Proof.
+  induction w as [|x r IH]; intros k Hk.
+  - destruct k; discriminate.
+  - simpl in Hk. destruct ((x =? LB) || (x =? RB)) eqn:E.
+    + destruct k as [|[|k]].
+      * simpl in Hk. discriminate.
+      * exists 0%nat. simpl. rewrite E. split; reflexivity.
+      * simpl in Hk. destruct (IH k Hk) as [j [-> Hj]].
+        exists (S (S j)). simpl. rewrite E. split; [reflexivity|exact Hj].
+    + destruct k as [|k].
+      * simpl in Hk. injection Hk as ->. discriminate.
+      * simpl in Hk. destruct (IH k Hk) as [j [-> Hj]].
+        exists (S j). simpl. rewrite E. split; [reflexivity|exact Hj].
+Qed.
+
+Lemma escaped_text_literal gs w : expand gs (esc w) = Ok w.
+Proof.
+  destruct (escaped_open_no_placeholder gs (esc w) (esc_all_open_escaped w)) as [H _].
+  rewrite H, unescape_esc. reflexivity.
+Qed.
